@@ -66,6 +66,9 @@ type GenScript struct {
 	AliasRules map[string]Rule `json:"alias_rules,omitempty"`
 	// NoAlias: the generator does not implement AliasGenerator.
 	NoAlias bool `json:"no_alias,omitempty"`
+	// Scalar (with Impl "nonew" and NoAlias): the generator's Go type is not a struct (`type serialGen int` with
+	// pointer receivers) - legal, and just as much created afresh for every package.
+	Scalar bool `json:"scalar,omitempty"`
 	// Inspect: in every GenerateType call the generator compares the name tables of its own package and
 	// of the packages it imports with go/types' scopes, through the public API (C13 seen from inside a run).
 	Inspect bool `json:"inspect,omitempty"`
